@@ -19,7 +19,8 @@ func lambdaFromList(args slip.List, p *slip.Printer) Node {
 	args = args[1:]
 	lambda.children = make([]Node, len(args))
 	for i, v := range args {
-		if i == 0 {
+		// A string that is the only form is the value, not documentation.
+		if i == 0 && 1 < len(args) {
 			if doc, ok := v.(slip.String); ok {
 				lambda.children[i] = &Doc{text: string(doc), nl: true}
 				continue
